@@ -87,7 +87,14 @@ def _sk_kwargs(ch):
     if n is None:
         n = ch.integer("w", 0, 4, "nkw")
         ch._c01_nkw = n
-    return {keys[i]: ch.integer("w", 0, 9, "kw") for i in range(n)}
+    out = {}
+    for i in range(n):
+        kind = ch.weighted("w", [("int", 5), ("list", 1), ("dict", 1), ("tuple", 1)], "kw-kind")
+        v = ch.integer("w", 0, 9, "kw")
+        # any value is a legitimate free parameter, containers included (a list
+        # of column names, a dict of options): they are stored as given
+        out[keys[i]] = {"int": v, "list": [v, v + 1], "dict": {"a": v}, "tuple": (v, "x")}[kind]
+    return out
 
 
 def _stacking(ch):
@@ -499,7 +506,7 @@ def run(c, index, tier):
 
     nops = ch.integer("w", 4, 18, "nops")
     for k in range(nops):
-        op = ch.weighted("w", [("set", 6), ("transplant", 3), ("clone", 2), ("get", 2), ("replace-by-clone", 1), ("fit", 1), ("set-multi", 2)], "op")
+        op = ch.weighted("w", [("set", 6), ("transplant", 3), ("clone", 2), ("get", 2), ("replace-by-clone", 1), ("fit", 1), ("set-multi", 2), ("set-other-family", 1)], "op")
         i = ch.draw("w", len(insts), "which")
         x = insts[i]
         if len(c.scenario["ops"]) < 24:
@@ -578,6 +585,48 @@ def run(c, index, tier):
                 d = _equal_params(before[j], after[j])
                 if d:
                     sim.viol("frame-other-instance", (), "set_params on one instance changed another instance that shares no object with it: %s" % d)
+        elif op == "set-other-family":
+            # an estimator-valued parameter is replaced by an estimator of
+            # another family (a regressor where a classifier was, as a grid over
+            # models does) and then put back: each call changes the key it is
+            # given and nothing else, whatever the object can do afterwards
+            before = params_of(x, "before-set")
+            if before is None:
+                return
+            slots = [kk for kk in sorted(before) if "__" not in kk and hasattr(before[kk], "get_params") and not isinstance(before[kk], type) and not kk.startswith(("e_", "c_", "models_"))]
+            if not slots:
+                continue
+            kk = slots[ch.draw("w", len(slots), "slot")]
+            old = before[kk]
+            if hasattr(old, "predict_proba"):
+                new = _reg(ch)
+            elif hasattr(old, "predict"):
+                new = _clf(ch)
+            else:
+                continue
+            ok, r = U.sut(c, "set_params(other family)", x.set_params, **{kk: new})
+            if not ok:
+                c.probe("set_params_rejected_other_family")
+                return
+            mid = params_of(x, "after-set")
+            if mid is None:
+                return
+            for k2 in sorted(set(before) | set(mid)):
+                if "__" in k2 or _covers(name, kk, k2) or _covers(name, k2, kk):
+                    continue
+                if k2 not in before or k2 not in mid or not (before[k2] is mid[k2] or _same_value(before[k2], mid[k2])):
+                    sim.viol("frame", (_key_class(kk), "changed:" + _key_class(k2), "other-family"), "set_params(%s=<%s>) also changed %r: %r -> %r" % (kk, type(new).__name__, k2, before.get(k2, "<missing>"), mid.get(k2, "<missing>")))
+                    break
+            ok, r = U.sut(c, "set_params(back)", x.set_params, **{kk: old})
+            if not ok:
+                return
+            back = params_of(x, "after-set")
+            if back is None:
+                return
+            d = _equal_params(before, back)
+            if d:
+                sim.viol("frame", (_key_class(kk), "not-restored", "other-family"), "replacing %s by a %s and putting the original object back does not restore the parameters: %s" % (kk, type(new).__name__, d))
+            c.probe("estimator_replaced_by_another_family_and_back")
         elif op == "set-multi":
             # one call, several keys: a nested object is replaced AND one of
             # its parameters is given, in either keyword order
